@@ -195,3 +195,114 @@ _add(Cond('pivot_stack_unstack_roundtrip', [(p, 'int') for p in ('a0', 'a1', 'b0
         functions=['Frame.pivot_stack', 'Frame.pivot_unstack'],
         bounds='2x2 frame, cells symbolic in 0..2 (equal and distinct cells)',
         route='pivot_stack followed by pivot_unstack restores every cell at its labels', timeout=400))
+
+
+# ---------------------------------------------------------------- joins keyed on a label depth AND a column, and on two columns
+
+def ref_join(kind, lkeys, rkeys, lrows, rrows, fill, width_l, width_r):
+    out = []
+    ml, mr = set(), set()
+    for i, a in enumerate(lkeys):
+        for j, b in enumerate(rkeys):
+            if a == b:
+                out.append(list(lrows[i]) + list(rrows[j]))
+                ml.add(i); mr.add(j)
+    if kind in ('left', 'outer'):
+        out += [list(lrows[i]) + [fill] * width_r for i in range(len(lkeys)) if i not in ml]
+    if kind in ('right', 'outer'):
+        out += [[fill] * width_l + list(rrows[j]) for j in range(len(rkeys)) if j not in mr]
+    return out
+
+
+def mk_join_depth_and_column(kind, tier='quick'):
+    def body(env, k0, k1, k2, r0, r1, q0, q1):
+        from vf import rt
+        lk = [concretize(v, 0, 1) for v in (k0, k1, k2)]
+        ri = [concretize(r0, 0, 2), concretize(r1, 0, 2)]
+        rk = [concretize(q0, 0, 1), concretize(q1, 0, 1)]
+
+        def run():
+            sf = env.sf
+            fill = -1
+            li = [0, 1, 2]
+            lp, rp = [101, 102, 103], [201, 202]
+            left = sf.Frame.from_items((('k', env.array(lk, 'int64')), ('lv', env.array(lp, 'int64'))), index=li)
+            right = sf.Frame.from_items((('k2', env.array(rk, 'int64')), ('rv', env.array(rp, 'int64'))), index=ri)
+            r = getattr(left, 'join_' + kind)(right, left_depth_level=0, left_columns='k', right_depth_level=0, right_columns='k2', fill_value=fill)
+            got = [[env.obs(v) for v in row] for row in r.values.tolist()]
+            exp = ref_join(kind, list(zip(li, lk)), list(zip(ri, rk)), list(zip(lk, lp)), list(zip(rk, rp)), fill, 2, 2)
+            return [env.obs(r.columns.values.tolist()), multiset_equal(got, exp), len(got)], [['k', 'lv', 'k2', 'rv'], True, len(exp)]
+        return rt.untraced(run)
+    return Cond(f'join_{kind}_depth_and_column', [(p, 'int') for p in ('k0', 'k1', 'k2', 'r0', 'r1', 'q0', 'q1')], body,
+            ranges={'k0': (0, 1), 'k1': (0, 1), 'k2': (0, 1), 'r0': (0, 2), 'r1': (0, 2), 'q0': (0, 1), 'q1': (0, 1)}, pre=['r0 != r1'],
+            functions=['Frame._join', 'arrays_from_index_frame'],
+            bounds='left 3 rows (index 0,1,2; column key symbolic in 0..1), right 2 rows (index labels symbolic distinct in 0..2, column key symbolic in 0..1); the key of a row is (index label, column value)',
+            route=f'Frame.join_{kind}(left_depth_level=0, left_columns=k, right_depth_level=0, right_columns=k2): a pair matches iff BOTH key parts agree', tier=tier, timeout=400)
+
+
+_add(mk_join_depth_and_column('inner'))
+_add(mk_join_depth_and_column('outer'))
+_add(mk_join_depth_and_column('left', tier='thorough'))
+_add(mk_join_depth_and_column('right', tier='thorough'))
+
+
+def body_join_two_columns(env, k0, k1, k2, j0, j1, j2, kindsel):
+    from vf import rt
+    lk = [(concretize(a, 0, 1), concretize(b, 0, 1)) for a, b in ((k0, j0), (k1, j1), (k2, j2))]
+    kind = ('inner', 'left', 'right', 'outer')[concretize(kindsel, 0, 3)]
+
+    def run():
+        sf = env.sf
+        fill = -1
+        rk = [(0, 0), (1, 1), (0, 1)]
+        lp, rp = [101, 102, 103], [201, 202, 203]
+        left = sf.Frame.from_items((('k', env.array([a for a, _ in lk], 'int64')), ('j', env.array([b for _, b in lk], 'int64')), ('lv', env.array(lp, 'int64'))), index=[10, 11, 12])
+        right = sf.Frame.from_items((('k2', env.array([a for a, _ in rk], 'int64')), ('j2', env.array([b for _, b in rk], 'int64')), ('rv', env.array(rp, 'int64'))), index=[20, 21, 22])
+        r = getattr(left, 'join_' + kind)(right, left_columns=['k', 'j'], right_columns=['k2', 'j2'], fill_value=fill)
+        got = [[env.obs(v) for v in row] for row in r.values.tolist()]
+        exp = ref_join(kind, lk, rk, [list(k) + [p] for k, p in zip(lk, lp)], [list(k) + [p] for k, p in zip(rk, rp)], fill, 3, 3)
+        return [env.obs(r.columns.values.tolist()), multiset_equal(got, exp), len(got)], [['k', 'j', 'lv', 'k2', 'j2', 'rv'], True, len(exp)]
+    return rt.untraced(run)
+
+
+_add(Cond('join_two_key_columns', [(p, 'int') for p in ('k0', 'k1', 'k2', 'j0', 'j1', 'j2', 'kindsel')], body_join_two_columns,
+        ranges={p: (0, 1) for p in ('k0', 'k1', 'k2', 'j0', 'j1', 'j2')} | {'kindsel': (0, 3)},
+        functions=['Frame._join'],
+        bounds='left 3 rows with a two-column key (both parts symbolic in 0..1), right rows keyed (0,0), (1,1), (0,1); join kind symbolic over inner/left/right/outer',
+        route='Frame.join_*(left_columns=[k, j], right_columns=[k2, j2]): a pair matches iff both key columns agree', timeout=400))
+
+
+# ---------------------------------------------------------------- pivot with two index fields and no column field
+
+def mk_pivot_two_index_fields(finding=False):
+    def body(env, s0, s1, s2, n0, n1, n2, mixed):
+        from vf import rt
+        ss = [bool(s0), bool(s1), bool(s2)]
+        ns = [concretize(v, 0, 1) for v in (n0, n1, n2)]
+        mixed = bool(mixed)
+
+        def run():
+            sf = env.sf
+            vs = [1, 2, 4]
+            outer = [('b' if s else 'a') for s in ss] if mixed else [(7 if s else 3) for s in ss]
+            f = sf.Frame.from_items((('s', env.array(outer, '<U1' if mixed else 'int64')), ('n', env.array(ns, 'int64')), ('v', env.array(vs, 'int64'))))
+            p = f.pivot(('s', 'n'), data_fields='v')
+            got = sorted([[env.obs(list(k)), env.obs(v)] for k, v in zip(p.index, p['v'].values.tolist())], key=lambda t: [str(x) for x in t[0]])
+            pairs = []
+            for o, n in zip(outer, ns):
+                if [o, n] not in pairs:
+                    pairs.append([o, n])
+            exp = sorted([[k, sum(v for v, o, n in zip(vs, outer, ns) if [o, n] == k)] for k in pairs], key=lambda t: [str(x) for x in t[0]])
+            return [got, list(p.shape)], [exp, [len(pairs), 1]]
+        return rt.untraced(run)
+    # an outer label that re-appears after another one, in first-appearance order of DISTINCT keys (mixed kinds only): finding F27
+    region = 'mixed and s0 != s1 and s2 == s0 and n2 != n0'
+    return Cond('pivot_two_index_fields' + ('_noncontiguous_finding' if finding else ''), [('s0', 'bool'), ('s1', 'bool'), ('s2', 'bool'), ('n0', 'int'), ('n1', 'int'), ('n2', 'int'), ('mixed', 'bool')], body,
+            ranges={'n0': (0, 1), 'n1': (0, 1), 'n2': (0, 1)}, pre=[region if finding else f'not ({region})'],
+            functions=['Frame.pivot'],
+            bounds='3-row frame; two index fields (outer: two values chosen per row by a symbolic Boolean, held as str or int (symbolic); inner symbolic in 0..1), no column field; data 1, 2, 4',
+            route='Frame.pivot((s, n), data_fields=v): one row per distinct (s, n) pair labelled by that pair, the cell the sum of exactly the rows with that pair', timeout=400)
+
+
+_add(mk_pivot_two_index_fields())
+_add(mk_pivot_two_index_fields(finding=True))
